@@ -1384,7 +1384,14 @@ fn preprocess_initial_file(
 
     // Add initial macros
     for (name, value) in initial_defines {
-        let tokens = match TokenStream::new(value, SourceLocation::UNKNOWN)
+        // Register the value as a file so the tokens have locations like any other macro body
+        let file_id = file_loader
+            .source_manager
+            .add_file(FileName("<command line>".to_string()), value.to_string());
+        let base_location = file_loader
+            .source_manager
+            .get_source_location_from_file_offset(file_id, StreamLocation(0));
+        let tokens = match TokenStream::new(value, base_location)
             .suppress_trailing_endline()
             .read_to_end()
         {
